@@ -1,4 +1,5 @@
 """C02 — a read is a pure function of the database contents."""
+import re
 import os, sys
 from vlib import common as C
 from vlib import framework as F
@@ -274,10 +275,93 @@ def run(ctx):
                 ctx.sample({"op": l, "library": out[i][:140]})
                 n += 1
     report(ctx, allbad, ())
+    return_type_stream(ctx)
     if not ok and not any(f.kind == "input" for f in ctx.failures):
         names = [o[0] for o in ctx.obligations if not o[1]]
         ctx.fail("obligation", "Lean obligations no longer check: " + "; ".join(names)[:300] + " :: " + lr.errors[-500:],
                  {"theorem": names, "lean_errors": lr.errors[-3000:]}, has_input=False)
+
+
+def return_type_stream(ctx):
+    """the clause 'for RAW fields, and for derived fields whose inputs and result are exactly representable in both
+    types, it is also the same in every return type': integer-valued data, integer/dyadic coefficients, every vector field
+    read in FLOAT64, INT64, FLOAT32, COMPLEX128 and COMPLEX64; real parts must agree, imaginary parts of real fields be 0."""
+    import struct
+    from checks.c10 import hx
+    harness = C.build_harness("gdh", ["gdh.c"])
+    rng = ctx.rng
+    chunks, metas = [], []
+    for i in range(60 if ctx.thorough() else 16):
+        s1, s2 = rng.choice([(1, 1), (2, 1), (1, 2), (2, 2), (4, 2)])
+        n = rng.choice([6, 10])
+        fmt = ["/VERSION 10", "/ENDIAN little", "/ENCODING none", "a RAW UINT8 %d" % s1, "b RAW INT16 %d" % s2, "c RAW COMPLEX64 %d" % s1,
+               "l1 LINCOM 1 a %d %d" % (rng.randint(1, 5), rng.randint(-4, 4)),
+               "l2 LINCOM 2 a %d %d b %d %d" % (rng.randint(1, 5), rng.randint(-4, 4), rng.randint(1, 3), rng.randint(0, 3)),
+               "l2s LINCOM 2 a 2 1 a 3 0", "l3 LINCOM 3 a 1 0 b 2 1 a 1 1", "lc LINCOM 2 c 2 1 a 1 0",
+               "mu MULTIPLY a b", "ph PHASE a 1", "po POLYNOM a 1 2 1", "bt BIT a 1 3", "rc RECIP a 64", "wi WINDOW a b GE 0", "mp MPLEX a b 3 0", "dv DIVIDE b a"]
+        A = bytes(rng.choice([1, 2, 4, 8]) for _ in range(n * s1))
+        B = b"".join(struct.pack("<h", rng.choice([-8, -2, 0, 3, 4, 16])) for _ in range(n * s2))
+        Cc = b"".join(struct.pack("<ff", rng.randint(-9, 9), rng.randint(-9, 9)) for _ in range(n * s1))
+        L = ["reset", "file format " + hx("\n".join(fmt) + "\n"), "file a " + A.hex(), "file b " + B.hex(), "file c " + Cc.hex(), "open rdonly"]
+        fields = ["a", "b", "l1", "l2", "l2s", "l3", "mu", "ph", "po", "bt", "rc", "wi", "mp", "dv", "lc"]
+        # aligned starts only (first sample of a frame): the multi-rate misalignment is known finding 5.1
+        start = rng.choice([0, 1, 2])
+        for f in fields:
+            for t in ("f64", "c128", "i64", "f32", "c64"):
+                L.append("get %s %d 0 0 5 %s" % (f, start, t))
+        chunks.append(L)
+        metas.append((fields, "\n".join(fmt)))
+    res = streams.run_chunks(harness, chunks, "c02r")
+    for ci, (lines, out, crashed, err) in enumerate(res):
+        if crashed:
+            ctx.fail("input", "library aborted in the return-type stream: %s" % err[-300:], {"script": lines[:len(out) + 1], "stderr": err[-2500:]}, sig={"class": "crash"})
+            continue
+        fields, fmt = metas[ci]
+        base = 6
+
+        def dec(a, t):
+            m = re.match(r"get n=(\d+) e=(-?\d+) d=(\S*)", a)
+            if not m or m.group(2) != "0":
+                return None
+            vals = []
+            for x in [y for y in m.group(3).split(",") if y]:
+                parts = x.split(";")
+                def one(h):
+                    if h == "nan":
+                        return float("nan")
+                    v = int(h, 16)
+                    if t in ("f64", "c128"):
+                        return struct.unpack("<d", struct.pack("<Q", v))[0]
+                    if t in ("f32", "c64"):
+                        return struct.unpack("<f", struct.pack("<I", v))[0]
+                    return float(v - (1 << 64) if v >= (1 << 63) else v)
+                vals.append((one(parts[0]), one(parts[1]) if len(parts) > 1 else 0.0))
+            return vals
+        for fi, f in enumerate(fields):
+            got = {t: dec(out[base + 5 * fi + k], t) for k, t in enumerate(("f64", "c128", "i64", "f32", "c64"))}
+            ref = got["c128"] if f == "lc" else got["f64"]
+            if ref is None:
+                continue
+            ctx.evaluations += 1
+            ctx.distinct.add(("rtype", f))
+            for t in ("c128", "i64", "f32", "c64"):
+                g = got[t]
+                if g is None:
+                    continue
+                if f == "lc" and t in ("i64", "f32"):
+                    cmpv = [(a[0], 0.0) for a in ref]
+                elif f in ("rc", "dv") and t == "i64":
+                    continue                      # not integer valued
+                else:
+                    cmpv = ref if (t.startswith("c") and f == "lc") else [(a[0], 0.0) for a in ref]
+                if f == "lc" and t == "c64":
+                    cmpv = ref
+                same = len(g) == len(cmpv) and all((y[0] != y[0] and (x[0] != x[0] or (t == 'i64' and x[0] == 0))) or (x[0] == y[0] and x[1] == y[1]) for x, y in zip(g, cmpv))   # padding is NaN (any imaginary part)
+                if not same:
+                    ctx.fail("input", "field %s read as %s gives %s, as %s gives %s (exactly representable data)" % (f, t, g[:4], "c128" if f == "lc" else "f64", cmpv[:4]),
+                             {"script": lines[:6] + [lines[base + 5 * fi], lines[base + 5 * fi + ("f64", "c128", "i64", "f32", "c64").index(t)]], "format": fmt},
+                             sig={"class": "return-type", "field": f if f in ("rc", "dv") else "other", "type": t})
+                    break
 
 
 def replay(ctx, obj):
